@@ -644,25 +644,26 @@ fn hexs(s: &str) -> String {
 /// entry is a well-formed value for that key (generator knowledge, not the implementation's answer).
 fn abstract_line(bytes: &[u8], eff: bool, nonce: &str, bad_keys: &[String], cred: &str) -> String {
     let raw = hex(bytes);
-    let text = match std::str::from_utf8(bytes) {
-        Ok(t) => t,
-        Err(_) => return format!("line notutf8 raw={raw}"),
-    };
-    let text = text.strip_suffix('\r').unwrap_or(text);
+    // transport.rs read_request_line: drop one trailing "\r" (the "\n" is the harness's own terminator),
+    // then String::from_utf8_lossy: invalid bytes reach the parser as U+FFFD
+    let bytes = bytes.strip_suffix(b"\r").unwrap_or(bytes);
+    let decoded = String::from_utf8_lossy(bytes);
+    let lossy = if matches!(decoded, std::borrow::Cow::Owned(_)) { " lossy=1" } else { "" };
+    let text: &str = &decoded;
     let value: J = match serde_json::from_str(text) {
         Ok(v) => v,
-        Err(_) => return format!("line notjson raw={raw}"),
+        Err(_) => return format!("line notjson{lossy} raw={raw}"),
     };
     let req: MirrorRequest = match serde_json::from_value(value) {
         Ok(r) => r,
-        Err(_) => return format!("line notreq raw={raw}"),
+        Err(_) => return format!("line notreq{lossy} raw={raw}"),
     };
     let auth = match &req.auth {
         Some(a) => format!("s{}", hexs(a)),
         None => "none".into(),
     };
     let mut s = format!(
-        "req cred={cred} id={} type={} auth={} eff={} nonce={}",
+        "req cred={cred}{lossy} id={} type={} auth={} eff={} nonce={}",
         req.id,
         hexs(&req.r#type),
         auth,
@@ -1021,7 +1022,15 @@ fn variants_for(real_name: &str, w: &World, t: &Tables, rng: &mut Rng) -> Vec<Va
         "historian.query" | "historian.alerts" => vec![v_eff(Some(json!({}))), v_eff(None)],
         "debug.scopes" => vec![v_eff(Some(json!({"frame_id": 0})))],
         "debug.variables" => vec![v_eff(Some(json!({"variables_reference": 1})))],
-        "debug.evaluate" => vec![v_eff(Some(json!({"expression": "1 +"}))), v_eff(Some(json!({"expression": "1 + 1", "frame_id": 99})))],
+        "debug.evaluate" => vec![
+            v_eff(Some(json!({"expression": "1 + 1"}))),
+            v_eff(Some(json!({"expression": "Main.counter + 2"}))),
+            v_eff(Some(json!({"expression": "counter > 0 AND run", "frame_id": 0}))),
+            v_eff(Some(json!({"expression": "ABS(-3) * 2"}))),
+            v_eff(Some(json!({"expression": "no_such_variable"}))),
+            v_eff(Some(json!({"expression": "1 +"}))),
+            v_eff(Some(json!({"expression": "1 + 1", "frame_id": 99}))),
+        ],
         "debug.breakpoint_locations" => vec![v_eff(Some(json!({"source": "main.st", "line": 1, "end_line": 50})))],
         "breakpoints.set" => vec![v_eff(Some(json!({"source": "main.st", "lines": [8, 10]}))), v_bad(Some(json!({"source": "other.st", "lines": [1]})))],
         "breakpoints.clear" => vec![
@@ -1260,7 +1269,10 @@ fn gen_cfg(rng: &mut Rng, force: Option<(bool, bool, bool)>) -> WorldCfg {
         None => (rng.bool(), rng.bool(), rng.bool()),
     };
     let token = if token_set {
-        if rng.chance(1, 25) {
+        if force.is_none() && rng.chance(1, 12) {
+            // a lossily decoded credential "tok\xff" equals this token
+            Some("tok\u{fffd}".to_string())
+        } else if rng.chance(1, 25) {
             Some(String::new())
         } else {
             Some(ADMIN_TOKEN.to_string())
@@ -1303,7 +1315,7 @@ fn garbled_line(rng: &mut Rng, t: &Tables) -> Vec<u8> {
     let ro: Vec<&HandlerInfo> = t.handlers.iter().filter(|h| h.module == "status" && h.name != "config.set").collect();
     let h = *rng.pick(&ro);
     let valid = json!({"id": rng.below(1000), "type": h.name, "auth": ADMIN_TOKEN, "params": {"mode": "warm"}});
-    let mut bytes = match rng.below(16) {
+    let mut bytes = match rng.below(21) {
         0 => b"{invalid-json".to_vec(),
         1 => Vec::new(),
         2 => b"null".to_vec(),
@@ -1317,6 +1329,42 @@ fn garbled_line(rng: &mut Rng, t: &Tables) -> Vec<u8> {
         10 => serde_json::to_vec(&json!({"type": h.name, "auth": ADMIN_TOKEN})).unwrap(),
         11 => serde_json::to_vec(&json!({"id": 1, "type": h.name, "auth": 5})).unwrap(),
         12 => format!("{{\"id\":18446744073709551616,\"type\":\"{}\"}}", h.name).into_bytes(),
+        // bytes that are not valid UTF-8 (read_request_line decodes them lossily)
+        16 => {
+            // inside a string of an otherwise well-formed request: served as a normal request
+            let mut b = format!("{{\"id\":{},\"type\":\"{}\",\"x\":\"", rng.below(1000), h.name).into_bytes();
+            b.extend_from_slice(*rng.pick(&[&b"\xff"[..], &b"\xc0\xaf"[..], &b"\xe2\x82"[..], &b"\x80abc"[..], &b"\xed\xa0\x80"[..]]));
+            b.extend_from_slice(b"\"}");
+            b
+        }
+        17 => {
+            // inside the credential: the token followed by U+FFFD is not the token
+            let mut b = format!("{{\"id\":{},\"type\":\"{}\",\"auth\":\"{}", rng.below(1000), h.name, ADMIN_TOKEN).into_bytes();
+            b.push(0xff);
+            b.extend_from_slice(b"\"}");
+            b
+        }
+        18 => {
+            // a credential whose lossy decoding equals a configured token that contains U+FFFD itself
+            let mut b = format!("{{\"id\":{},\"type\":\"{}\",\"auth\":\"tok", rng.below(1000), h.name).into_bytes();
+            b.push(*rng.pick(&[0xffu8, 0x80, 0xfe]));
+            b.extend_from_slice(b"\"}");
+            b
+        }
+        19 => {
+            // inside the type, or outside any string
+            let mut b = format!("{{\"id\":{},\"type\":\"{}", rng.below(1000), h.name).into_bytes();
+            if rng.bool() {
+                b.push(0xff);
+                b.extend_from_slice(b"\"}");
+            } else {
+                b.extend_from_slice(b"\"");
+                b.extend_from_slice(*rng.pick(&[&b"\xff"[..], &b"\x80"[..], &b"\xc3"[..]]));
+                b.push(b'}');
+            }
+            b
+        }
+        20 => rng.pick(&[&b"\xff\xfe"[..], &b"\x80"[..], &b"\xef\xbb\xbf{}"[..], &b"\xf0\x9f"[..]]).to_vec(),
         13 => {
             let depth = 50 + rng.below(400) as usize;
             let mut s = String::new();
@@ -1549,32 +1597,42 @@ fn run_case(n: u64, args: &Args, base: &mut Base, t: &Tables, out: &mut Out) {
 }
 
 
-/// Replay of the witnesses of the recorded findings against the real server (one world each).
-/// Prints one `finding <id> <observed>` line per witness into the cases file's side channel (stats).
+/// Corpus: the witnesses of the recorded (now fixed) findings, replayed against the real server on every
+/// run; `checks/c18.py` compares what is observed with what the fixed code answers, so a regression is a
+/// failing input.  Time-outs are generous: only a real hang runs into them.
 fn replay_findings(base: &mut Base, out: &mut Out) {
-    // (1) a request line that is not valid UTF-8: the connection is dropped without a reply
+    let wait = Duration::from_secs(60);
+    // (1) C18-nonutf8-line-no-reply (fixed in 2c1da06): a line that is not valid UTF-8 used to end the
+    //     connection without a reply.  Now: decoded lossily, answered, and the connection goes on.
     {
         let cfg = WorldCfg { token: None, requires_auth: false, debug_enabled: true, debug_mode: false, pairing: false, tokens: vec![], tcp: false };
         let w = World::new(base, &cfg);
-        let mut c = w.connect();
+        let mut c = w.connect_with_timeout(wait);
+        // invalid byte inside a string of an otherwise valid request: served
         let r = c.send(b"{\"id\":1,\"type\":\"status\",\"x\":\"\xff\"}");
-        let (class, _) = classify_reply(&r);
-        out.count(&format!("finding:nonutf8-line:{}", class.replace(' ', "_")));
+        out.count(&format!("finding:nonutf8-line:{}", classify_reply(&r).0.replace(' ', "_")));
+        // invalid byte outside any string: error reply, on the SAME connection
+        let r = c.send(b"{\"id\":4,\"type\":\"status\"\xff}");
+        out.count(&format!("finding:nonutf8-line-bare:{}", classify_reply(&r).0.replace(' ', "_")));
+        // and the connection still serves requests
+        let r = c.send(b"{\"id\":5,\"type\":\"health\"}");
+        out.count(&format!("finding:nonutf8-line-then-health:{}", classify_reply(&r).0.replace(' ', "_")));
     }
-    // (2) debug.evaluate with an expression that parses: handle_debug_evaluate holds the metadata lock
-    //     while evaluate_with_snapshot locks it again
+    // (2) C18-debug-evaluate-self-deadlock (fixed in 92b3089): handle_debug_evaluate held the metadata
+    //     lock while evaluate_with_snapshot locked it again.
     {
         let cfg = WorldCfg { token: None, requires_auth: false, debug_enabled: true, debug_mode: true, pairing: false, tokens: vec![], tcp: false };
         let w = World::new(base, &cfg);
-        let mut c = w.connect_with_timeout(Duration::from_millis(1500));
+        let mut c = w.connect_with_timeout(wait);
         let r = c.send(b"{\"id\":2,\"type\":\"debug.evaluate\",\"params\":{\"expression\":\"1 + 1\"}}");
-        let (class, _) = classify_reply(&r);
+        let (class, v) = classify_reply(&r);
         out.count(&format!("finding:debug-evaluate:{}", class.replace(' ', "_")));
-        // is the metadata lock still held? (hmi.schema.get needs it)
-        let mut c2 = w.connect_with_timeout(Duration::from_millis(1000));
+        let result = v.as_ref().and_then(|v| v["result"]["result"].as_str()).unwrap_or("-").to_string();
+        out.count(&format!("finding:debug-evaluate-result:{}", result.replace(' ', "_")));
+        // the metadata lock is free again (hmi.schema.get needs it)
+        let mut c2 = w.connect_with_timeout(wait);
         let r2 = c2.send(b"{\"id\":3,\"type\":\"hmi.schema.get\"}");
-        let (class2, _) = classify_reply(&r2);
-        out.count(&format!("finding:debug-evaluate-then-schema:{}", class2.replace(' ', "_")));
+        out.count(&format!("finding:debug-evaluate-then-schema:{}", classify_reply(&r2).0.replace(' ', "_")));
         let free = w.state.metadata.try_lock().is_ok();
         out.count(&format!("finding:debug-evaluate-metadata-lock-free:{free}"));
     }
